@@ -125,8 +125,11 @@ def check_bookkeeping(prog, res, fn, body_node, rule='L4', label=None):
       rb_ok = False
     # `if key in last_change: rolled = w - last_change[key] else: rolled = w`
     if not rb_ok:
+      prev = max([x.lineno for x in writes if x.lineno < w.lineno
+                  and dotted(x.targets[0].value) == d] or [0])
       for st in ast.walk(body_node):
         if isinstance(st, ast.Assign) and dotted(st.targets[0]) == rolled and \
+            prev < st.lineno < w.lineno and \
             isinstance(st.value, ast.BinOp) and isinstance(
                 st.value.op, ast.Sub) and dotted(st.value.left) == new:
           for s in ast.walk(st.value.right):
